@@ -304,6 +304,16 @@ func regressionCases(r *hxlib.Run, emit func(hxlib.Case)) {
 	mk("insert-struct-unassignable",
 		fmt.Sprintf("seedstruct %s %s", hx([]byte("hmap:s")), hx([]byte(sj))),
 		m(`1|insert|hmap:s|{"Tags":["x"]}`, "i=0"), m(`2|insert|hmap:s|{"Attr":{"a":"b"}}`, "i=0"), m(`3|insert|hmap:s|{"Name":"m"}`), m("4|get|hmap:s"))
+	// an insert that is refused half way must not leave the values applied before the refusal behind
+	// (hashmap hands out the stored record itself)
+	for _, db := range []string{"hmap", "hmsd", "bolt"} {
+		mk("failed-insert-partially-applied",
+			m("1|create|"+db+`:p|J{"a":1}`), m("2|insert|"+db+`:p|{"b":2,"a":"str"}`, "i=0"), m("3|get|"+db+":p"),
+			m("4|insert|"+db+`:p|{"c":true}`), m("5|get|"+db+":p"))
+	}
+	mk("failed-insert-partially-applied",
+		fmt.Sprintf("seedstruct %s %s", hx([]byte("hmap:s")), hx([]byte(sj))),
+		m(`1|insert|hmap:s|{"Name":"changed","Score":"str"}`, "i=0"), m("2|get|hmap:s"))
 	// JSON payloads that are not objects must not be returned with their content replaced
 	mk("non-object-json",
 		m("1|create|bolt:j|J5", "o=0"), m("2|get|bolt:j"), m("3|create|bolt:j|J[1,2]", "o=0"), m("4|get|bolt:j"),
